@@ -123,6 +123,9 @@ func (k Keeper) ReturnSlashedTokens(ctx context.Context, amt math.Int, hashId []
 		// the dispute module delivers the returned coins to the bonded pool, so the token source is
 		// always bonded: for a validator that is not bonded the staking module then moves the coins
 		// on to the not-bonded pool, keeping each pool equal to what its validators record
+		if shareAmt.TruncateInt().IsZero() {
+			continue // nothing to bond back for this source (delegating zero tokens would leave a zero-share delegation)
+		}
 		_, err = k.stakingKeeper.Delegate(ctx, delAddr, shareAmt.TruncateInt(), stakingtypes.Bonded, val, false) // false means to not subtract tokens from an account
 		if err != nil {
 			return err
@@ -173,6 +176,11 @@ func (k Keeper) FeeRefund(ctx context.Context, hashId []byte, amt math.Int) erro
 		amtDec := math.LegacyNewDecFromInt(amt)
 		shareAmtDec := sourceAmountDec.Mul(amtDec).Quo(trackedFeesTotalDec)
 		shareAmt := shareAmtDec.TruncateInt()
+		// a source whose part of the refund truncates to nothing gets nothing: delegating zero tokens would leave a
+		// delegation with zero shares behind
+		if shareAmt.IsZero() {
+			continue
+		}
 		_, err = k.stakingKeeper.Delegate(ctx, sdk.AccAddress(source.DelegatorAddress), shareAmt, stakingtypes.Bonded, val, false)
 		if err != nil {
 			return err
@@ -216,6 +224,9 @@ func (k Keeper) AddAmountToStake(ctx context.Context, acc sdk.AccAddress, amt ma
 		return err
 	}
 	validator := vals[0]
+	if amt.IsZero() {
+		return nil // nothing to stake
+	}
 
 	_, err = k.stakingKeeper.Delegate(ctx, acc, amt, stakingtypes.Bonded, validator, false)
 	if err != nil {
